@@ -26,7 +26,8 @@ def _include_dirs(py):
         [py, '-c',
          'import sysconfig, numpy, os, CyRK;'
          'print(sysconfig.get_paths()["include"]);print(numpy.get_include());'
-         'print(os.path.dirname(CyRK.__file__))'],
+         'print(os.path.dirname(CyRK.__file__));'
+         '[print(d) for d, _, fs in os.walk(os.path.dirname(CyRK.__file__)) if any(f.endswith((".c", ".h", ".pxd")) for f in fs)]'],
         capture_output=True, text=True, stdin=subprocess.DEVNULL, check=True).stdout.split('\n')
     return [x for x in out if x]
 
